@@ -73,23 +73,28 @@ def add_corners_if_it_is_an_uri(a_candidate_uri):
 
 
 def decide_literal_type(a_literal, base_namespace=None):
-    if there_is_arroba_after_last_quotes(a_literal):
+    # The kind of literal is written after the closing quote: nothing, @lang or ^^datatype.
+    # Whatever the lexical form contains ('@', '^^', 'xsd:'...) does not matter.
+    # (Unquoted content, as handed over by parse_unquoted_literal, has no such suffix.)
+    index_of_last_quotes = a_literal.rfind('"')
+    suffix = a_literal[index_of_last_quotes + 1:].strip() if index_of_last_quotes >= 0 else ""
+    if suffix.startswith("@"):
         return LANG_STRING_TYPE
-    elif "\"^^" not in a_literal:
+    elif not suffix.startswith("^^"):
+        if there_is_arroba_after_last_quotes(a_literal):
+            return LANG_STRING_TYPE
         return STRING_TYPE
-    elif "xsd:" in a_literal:
-        return XSD_NAMESPACE + a_literal[a_literal.find("xsd:") + 4:]
-    elif "rdf:" in a_literal:
-        return RDF_SYNTAX_NAMESPACE + a_literal[a_literal.find("rdf:")+ 4:]
-    elif "dt:" in a_literal:
-        return DT_NAMESPACE + a_literal[a_literal.find("dt:")+ 3:]
-    elif "geo:" in a_literal:
-        return OPENGIS_NAMESPACE + a_literal[a_literal.find("geo:") + 4:]
-    elif XSD_NAMESPACE in a_literal or RDF_SYNTAX_NAMESPACE in a_literal \
-            or DT_NAMESPACE in a_literal or OPENGIS_NAMESPACE in a_literal:
-        return a_literal[a_literal.find("\"^^")+4:-1]
-    elif a_literal.strip().endswith(">"):
-        candidate_type = a_literal[a_literal.find("\"^^") + 4:-1]  # plain uri, no corners
+    a_type = suffix[2:]
+    if a_type.startswith("xsd:"):
+        return XSD_NAMESPACE + a_type[4:]
+    elif a_type.startswith("rdf:"):
+        return RDF_SYNTAX_NAMESPACE + a_type[4:]
+    elif a_type.startswith("dt:"):
+        return DT_NAMESPACE + a_type[3:]
+    elif a_type.startswith("geo:"):
+        return OPENGIS_NAMESPACE + a_type[4:]
+    elif a_type.startswith("<") and a_type.endswith(">"):
+        candidate_type = a_type[1:-1]  # plain uri, no corners
         if base_namespace is not None and not starts_with_scheme(candidate_type):
             return base_namespace + candidate_type
         return candidate_type
